@@ -266,7 +266,7 @@ func (s *Session) frameObligations(fr *Frame, c *Contract, out *State, short str
 					ok = true
 				}
 			}
-			if !ok && !strings.HasPrefix(n, "X:txn:") && !strings.HasSuffix(n, "0") {
+			if !ok && !strings.HasPrefix(n, "X:txn:") && !strings.HasSuffix(n, "0") && !strings.HasPrefix(n, "X:ev") {
 				conj = append(conj, Eq(cur, init))
 				srcs = append(srcs, n)
 			}
